@@ -50,8 +50,10 @@ SETTINGS = [
     ("lossy+abcs", dict(lossy=True, use_abcs=True, max_union=7,
                         remove_mutable=False)),
 ]
-IDEMPOTENCE_ASSERTED = {"pytype", "max_union=2", "max_union=4",
-                        "max_union=None", "remove_mutable", "use_abcs"}
+# Settings whose non-idempotence is a recorded, setting-wide known finding
+# (one signature per setting); every other setting gets root-cause signatures.
+SETTING_WIDE = {"remove_mutable": "remove_mutable", "lossy": "lossy",
+                "lossy+abcs": "lossy"}
 
 
 def _mods():
@@ -109,6 +111,11 @@ def sig_shape(sig):
       ("**", sig.starstarargs.name if sig.starstarargs else None))
 
 
+def sig_mutations(sig):
+  """(name, declared type, type after the call or None)."""
+  return [(p.name, p.type, p.mutated_type) for p in sig.params]
+
+
 def sig_types(sig):
   ts = [(p.name, p.type) for p in sig.params]
   if sig.starargs:
@@ -155,6 +162,24 @@ def widening_violations(D, before, after, check_mutated):
                 n1, pytd_utils.Print(t1), pytd_utils.Print(t2),
                 first_value(D, lo & ~up))
             break
+        if ok:
+          # a parameter's type after the call ("mutated" parameter) must not
+          # become stricter either; optimisers may fold it into the declared
+          # type (AbsorbMutableParameters), so the after side is
+          # mutated_type-or-declared-type.
+          for (n1, _, m1), (_, t2, m2) in zip(sig_mutations(sig),
+                                              sig_mutations(s2)):
+            if m1 is None:
+              continue
+            lo, _ = D.masks(m1)
+            _, up = D.masks(m2 if m2 is not None else t2)
+            if lo & ~up:
+              ok = False
+              why = "mutated parameter %s narrowed: %s -> %s (e.g. %r)" % (
+                  n1, pytd_utils.Print(m1),
+                  pytd_utils.Print(m2 if m2 is not None else t2),
+                  first_value(D, lo & ~up))
+              break
         if ok:
           lo, _ = D.masks(sig.return_type)
           _, up = D.masks(s2.return_type)
@@ -227,13 +252,12 @@ def check_ast(ctx, make, label, text_key, case, settings=SETTINGS):
       # a classified root cause is the same defect under every setting
       sig = ("not-idempotent:" + cls if cls not in ("other", "ast-only")
              else "not-idempotent[%s]:%s" % (sname, cls))
-      if sname not in IDEMPOTENCE_ASSERTED:
-        ctx.event("lossy-setting-not-idempotent:" + sname)
-      else:
-        ctx.check(False, sig, "[%s] %s: second Optimize changes the stub\n"
-                  "--- once\n%s\n--- twice\n%s" % (
-                      sname, label, diff_lines(after_txt, t2), ""),
-                  dict(case, setting=sname))
+      if sname in SETTING_WIDE:
+        sig = "not-idempotent-setting:" + SETTING_WIDE[sname]
+      ctx.check(False, sig, "[%s] %s: second Optimize changes the stub\n"
+                "--- once\n%s\n--- twice\n%s" % (
+                    sname, label, diff_lines(after_txt, t2), ""),
+                dict(case, setting=sname))
 
 
 def changed_lines(a, b):
@@ -267,11 +291,13 @@ def idem_class(a, b):
   bare = r"\b(tuple|list|set|frozenset|dict|type)\b(?!\[)"
   classes = set()
   for x, y in itertools.zip_longest(rem, add, fillvalue=""):
-    if ("object" in x and "object" in y and
-        len(re.findall(bare, x)) > len(re.findall(bare, y))):
-      # a bare container class name (produced late by SimplifyContainers)
-      # present once, absorbed by `object` on the second pass
-      classes.add("late-bare-container-absorbed-by-object")
+    if "object" in x and "object" in y and len(y) < len(x):
+      # union members that a pass running after
+      # SimplifyUnionsWithSuperclasses produced (a bare container from
+      # SimplifyContainers, the mutated type folded in by
+      # AbsorbMutableParameters) are absorbed by `object` only on the
+      # second pass
+      classes.add("members-absorbed-by-object-on-second-pass")
     elif "Any" in x and x.count("Union[") > y.count("Union["):
       classes.add("union-with-Any-collapses-late")
     else:
@@ -288,6 +314,9 @@ def part_generated(ctx, n):
               case)
 
   hyp_run(ctx, gen_pyi.stub(aliases=False), body, n, label="gen")
+  hyp_run(ctx, gen_pyi.stub(aliases=False, mutations=True, max_classes=2,
+                            max_consts=1, max_funcs=5), body, max(1, n // 2),
+          label="gen-mut")
   hyp_run(ctx, gen_pyi.stub(max_classes=3, max_consts=6, max_funcs=3, depth=3,
                             aliases=False), body, max(1, n // 3),
           label="gen-deep")
@@ -315,6 +344,33 @@ class D:
 ]
 
 
+POOL = ["tuple[()]", "tuple[int]", "tuple[int, str]", "tuple[str, ...]",
+        "list[int]", "list[str]", "Callable[[], int]", "Callable[[int], str]",
+        "Callable[..., int]", "dict[int, str]", "dict[str, int]", "int", "A",
+        "B", "None", "object", "type[A]", "type[B]", "set[B]", "Any",
+        "Literal[1]"]
+
+
+def part_small_unions(ctx, arity, per_stub=150):
+  """Exhaustive ordered unions of `arity` members from POOL, as constants,
+  parameters and return types."""
+  combos = [c for c in itertools.product(POOL, repeat=arity)
+            if len(set(c)) == arity]
+  chunks = [combos[i:i + per_stub] for i in range(0, len(combos), per_stub)]
+  for ci, chunk in enumerate(chunks):
+    if ci % ctx.nshards != ctx.shard:
+      continue
+    lines = ["from typing import Any, Callable, Literal, Union",
+             "class A: ...", "class B(A): ..."]
+    for k, c in enumerate(chunk):
+      u = "Union[%s]" % ", ".join(c)
+      lines.append("x%d: %s" % (k, u))
+      lines.append("def f%d(a: %s) -> %s: ..." % (k, u, u))
+    text = "\n".join(lines) + "\n"
+    check_ast(ctx, lambda: pt.load_resolved(text, "m"), "small-unions",
+              text, {"kind": "stub", "text": text}, settings=SETTINGS[:5])
+
+
 def part_fixed(ctx):
   for text in FIXED:
     check_ast(ctx, lambda: pt.load_resolved(text, "m"), "fixed", text,
@@ -325,13 +381,16 @@ def run_shard(ctx):
   boot.ensure()
   if ctx.shard == 0:
     part_fixed(ctx)
-  part_generated(ctx, 25 if ctx.quick() else 1500)
+  part_small_unions(ctx, 2)
+  if not ctx.quick():
+    part_small_unions(ctx, 3)
+  part_generated(ctx, 20 if ctx.quick() else 1500)
   try:
-    from props import c11_programs
+    from props import progs_c11
   except ImportError:
-    c11_programs = None
-  if c11_programs:
-    c11_programs.run(ctx, check_ast)
+    progs_c11 = None
+  if progs_c11:
+    progs_c11.run(ctx, check_ast)
 
 
 def replay(ctx, case):
